@@ -63,6 +63,10 @@ def keyword_lookalikes():
 def c09(tier, rng):
     cases = []
     maxlen = 3
+    from .words import WORDS
+    for w in WORDS:
+        for t in (w, w + '(', w + '-3', w + ' ' + w, 'a' + w, w + '1', w + '_', '!' + w, w + '=' + w + ';'):
+            cases.append(run_case('lex', t, label='natural-word'))
     for w in keyword_lookalikes():
         cases.append(run_case('lex', w, label='keyword-lookalike'))
         cases.append(run_case('lex', w + ' = 1;', label='keyword-lookalike'))
@@ -104,7 +108,7 @@ def c09(tier, rng):
         cases.append(Case('bad-utf8', req('lex', bs), LEXKEYS, src=bs.decode('latin1')))
     rule = (f'every string of <= {maxlen} fragments over {len(FRAGS)} lexical fragments' +
             (f', every string of <= 4 over {len(FRAGS_SMALL)} fragments' if tier == 'thorough' else '') +
-            f'; characters whose low byte is an operator / digit / quote / blank character, after each operator prefix ({len(opchars)} x {len(highs)} code points x 15 contexts); {len(keyword_lookalikes())} keyword look-alikes (other normalisation forms, joiners, neighbours); single code points (step {step} above U+3100, all below, each also inside a word); {n} seeded random texts with '
+            f'; characters whose low byte is an operator / digit / quote / blank character, after each operator prefix ({len(opchars)} x {len(highs)} code points x 15 contexts); {len(keyword_lookalikes())} keyword look-alikes (other normalisation forms, joiners, neighbours); {len(WORDS)} natural-language words (Bangla and English logic / arithmetic / control words that are NOT keywords) in 9 contexts; single code points (step {step} above U+3100, all below, each also inside a word); {n} seeded random texts with '
             'multi-line strings and comments; malformed UTF-8. Non-trivial = produces a token other than EOF or a diagnostic.')
     return {'cases': cases, 'rule': rule, 'exhaustive': True}
 
@@ -358,6 +362,12 @@ def c01(tier, rng, for_c08=False):
         for chain in itertools.product(['(1)', '[1]', '.p', '()'], repeat=n):
             cases.append(run_case('parse', 'a' + ''.join(chain) + ';', label='suffix-chain'))
             cases.append(run_case('parse', 'a' + ''.join(chain) + ' = 1;', label='suffix-chain-assign'))
+    # natural-language words that are not keywords are plain identifiers wherever an operand may stand
+    from .words import WORDS
+    for w in WORDS:
+        for t in (f'{w} - 3;', f'{w}(v);', f'{w}[0];', f'{w}.p;', f'{w} = 1;', f'-{w};', f'!{w};', f'a + {w} * b;', f'{w} (a) - b;', f'x = {w} - -1;',
+                  f'f({w}, {w} - 1);', f'a {w} b;', f'{w} {w};', f'a && {w} || {w}(1);', f'[{w}, {w}(2)][{w}];', f'{{{w}: {w}}};'):
+            cases.append(run_case('parse', t, label='natural-word'))
     for op_ in ['||', '&&', '|', '^', '&', '==', '!=', '<', '>=', '<<', '>>', '-', '+', '/', '*', '%', '**']:
         for n_ in ([49, 60] if tier == 'quick' else [33, 48, 49, 50, 64, 65, 129, 300]):
             cases.append(run_case('parse', f' {op_} '.join(f'a{i}' for i in range(n_)) + ';', label='long-chain'))
@@ -448,6 +458,14 @@ def c08(tier, rng):
     for cp in list(range(0x0980, 0x0A00)) + list(range(0x00A0, 0x00C0)) + list(range(0x2000, 0x2070, 3)) + [0x0964, 0x0965, 0x20B9, 0x09F3, 0xFEFF, 0x200B, 0x200C, 0x200D, 0x00AD]:
         cases.append(run_case('parse', f'{KW["print"]} 1;\n{chr(cp)};\n{KW["print"]} 2;\n', label='bare-code-point'))
         cases.append(run_case('parse', f'{KW["var"]} a{chr(cp)} = 1;\n', label='bare-code-point'))
+    from .words import WORDS
+    for w in WORDS:
+        cases.append(run_case('parse', f'{KW["var"]} {w} = 1;\n{KW["fun"]} f({w}) {{ {KW["return"]} {w}; }}\n{KW["print"]} {w} - 1;\n{KW["if"]} ({w}) {w}(1); {KW["else"]} {w} = 2;\n', label='natural-word'))
+        cases.append(run_case('parse', f'{KW["fun"]} {w}() {{}}\n{w}();\n{KW["for"]} ({KW["var"]} {w}1 = 0; {w}1 < 2; {w}1 = {w}1 + 1) {w};\n', label='natural-word'))
+    # the texts দেখাও produces, read back as source: only what the grammar says is a program is one
+    for t in ['1e+21', '1e-07', '1.5e+300', '2e+06', '+Inf', '-Inf', 'NaN', '-0', '[1 2 3]', '[1 2 3][0]', 'map[a:1]', 'map[a:1 b:2]', '<nil>', '<fn f>', '<native fn>', '1e21', '1E+5', '1.e+2', '0x10', '1_000', '.5', '5.', '1e', '১e+২', '1e+', '1e-x']:
+        for ctx in ('{P} {t};', '{V} y = {t};', '{V} y = {t} + 1;', '{t};', 'f({t});', '[{t}];'):
+            cases.append(run_case('parse', ctx.replace('{P}', KW['print']).replace('{V}', KW['var']).replace('{t}', t) + '\n', label='printed-form-as-source'))
     # reserved names, parameter limit, assignment targets, statements starting with `{`
     for name in list(NAT.values()) + ['input', 'a', 'inputx', KW['print']]:
         cases.append(run_case('parse', f'{KW["var"]} {name} = 1;', label='reserved'))
